@@ -62,9 +62,9 @@ var c19Exceptions = map[string]e5Exception{
 	"(*httpserver.replacer).getSubstitution|slice:key[2:len(key)-1]#4": {"as above with key[1] == '?'", append([]string{"guard:key[1]"}, keyShape...)},
 	"(*httpserver.replacer).getSubstitution|slice:key[2:len(key)-1]#5": {"as above with key[1] == '$'", append([]string{"guard:key[1]"}, keyShape...)},
 	"(*httpserver.replacer).getSubstitution|slice:key[6:len(key)-1]":   {"key has the prefix \"{label\" (6 bytes) and ends in '}', which is not part of the prefix, hence len(key) >= 7", append([]string{"guard:strings.HasPrefix(key, \"{label\")=true"}, keyShape...)},
-	"(*fastcgi.record).read|slice:rec.rbuf[:n]": {"n = int(ContentLength)+int(PaddingLength) computed in int; rec.rbuf was just replaced by make([]byte, n) unless len(rec.rbuf) >= n already (conditional-update idiom: no single dominating guard)", []string{"ssa:(int(rec.h.ContentLength)+int(rec.h.PaddingLength))"}},
+	"(*fastcgi.record).read|slice:rec.rbuf[:(int(rec.h.ContentLength)+int(rec.h.PaddingLength))]": {"n = int(ContentLength)+int(PaddingLength) computed in int; rec.rbuf was just replaced by make([]byte, n) unless len(rec.rbuf) >= n already (conditional-update idiom: no single dominating guard)", []string{"ssa:(int(rec.h.ContentLength)+int(rec.h.PaddingLength))"}},
 	"(*fastcgi.record).read|slice:rec.rbuf[:int(rec.h.ContentLength)]": {"int(ContentLength) <= n <= len(rec.rbuf) by the line above (both summands are non-negative and added in int)", []string{"ssa:int(rec.h.ContentLength)"}},
-	"push.parseLinkHeader|slice:link[li+1:ri]": {"li and ri are positions of different bytes ('<' and '>'), so ri >= li implies ri >= li+1", []string{"guard:\">\") < strings.Index(", "guard:\"<\") == -1)=false", "guard:\">\") == -1)=false"}},
+	"push.parseLinkHeader|slice:link[strings.Index(link,\"<\")+1:strings.Index(link,\">\")]": {"li and ri are positions of different bytes ('<' and '>'), so ri >= li implies ri >= li+1", []string{"guard:\">\") < strings.Index(", "guard:\"<\") == -1)=false", "guard:\">\") == -1)=false"}},
 }
 
 func runC19(r *Report, p *Program) {
